@@ -7,6 +7,14 @@ import OtelVerif.Lemmas.C02P
 import OtelVerif.Lemmas.C02Cond
 import OtelVerif.Lemmas.C02Cons
 import OtelVerif.Lemmas.C02Audit
+import OtelVerif.Lemmas.C02Fair
+import OtelVerif.Lemmas.C02R
+import OtelVerif.Lemmas.C02A
+import OtelVerif.Lemmas.C02PLive
+import OtelVerif.Model.C02G
+import OtelVerif.Model.C02V
+import OtelVerif.Lemmas.C02CondB
+import OtelVerif.Lemmas.C02PFair
 import OtelVerif.Gen.PQKeys
 /-!
 # C02 — sending queue: exactly-once hand-off, FIFO, bounded size, no lost wake-ups
@@ -402,12 +410,12 @@ theorem C02_deadlock_free_partial (hk : 0 ≤ k.cap) (hr : Reachable k s) :
     | some s1 => rfl
     | none => cases s.stopped <;> rfl
 
-/-- the full liveness statement has two more ingredients that are NOT proved here: (1) the goroutines' own
-activity always comes to rest (no infinite run of internal labels — stated below; needs a ranking function
-over phases and pending signals), and (2) a fairness assumption on the Go scheduler / `sync.Mutex` under which
-"some step of p is enabled" implies "p eventually takes it" (not modelled at all).  With (1) and (2),
-`C02_deadlock_free_partial` + `C02_no_lost_wakeup` give: every blocked producer is eventually released or
-legitimately waits behind a non-empty queue. -/
+/-- what `C02_deadlock_free_partial` leaves open, and where it is closed now: (1) the goroutines' own activity always comes to
+rest (no infinite run of internal labels) — stated here, proved below (`C02_deadlock_free_full_holds`, ranking `Phi`); (2) under
+a fairness hypothesis on the Go scheduler / `sync.Mutex` ("some goroutine step is enabled" implies "eventually some goroutine step
+is taken") every run comes to rest and, with consumers that keep working, releases every blocked producer — stated and proved
+over infinite runs as `C02_fair_run_comes_to_rest` / `C02_fair_run_releases_all` (persistent queue:
+`C02_persistent_fair_run_comes_to_rest` / `C02_persistent_fair_run_releases_all`).  The fairness itself stays a hypothesis. -/
 def C02_deadlock_free_full : Prop :=
   ∀ (k : Cfg) (s : St), 0 ≤ k.cap → Reachable k s →
     ∃ n, ∀ ls, (∀ l ∈ ls, Label.internal l = true) → (runSched k s ls).isSome = true → ls.length ≤ n
@@ -707,7 +715,7 @@ theorem C02_persistent_oversize_never_waits (hk : 0 ≤ k.cap) (hr : PReachable 
   let h := (Invp.reachable hk hr).C.elOk p hp
   ⟨h.1, h.2.1⟩
 
-def PQuiescent (k : Cfg) (s : St) : Prop := ∀ l, Label.internal l = true → pfire k s l = none
+/- `PQuiescent k s` (the persistent queue is at rest) is defined in `Lemmas/C02P.lean`. -/
 
 /-- persistent no-lost-wake-up: at rest, with nothing queued and nothing in flight (every accepted request
 finished), no producer is inside `cond.Wait`.  More generally a registered waiter at rest implies an unfinished
@@ -1066,6 +1074,52 @@ theorem C02_cond_credits_are_queued (ls : List CLabel) (s : CSt) (hl : ∀ l ∈
     · exact Or.inl a
     · exact Or.inr a
 
+/-! ## signal conservation of `cond.go` for EVERY schedule, `Broadcast` included (`Lemmas/C02CondB.lean`)
+
+The two theorems above carry the hypothesis "no `Broadcast` in the schedule" (written when the queues only signalled).  Since the
+repair "space is freed with `Broadcast`" the queues do broadcast on `hasMoreSpace`; the hypothesis is removed here. -/
+
+/-- `#registered + #unconsumed signals = #goroutines inside Wait` after ANY schedule of Wait / Signal / Broadcast / cancellations -/
+theorem C02_cond_signal_conservation_all (ls : List CLabel) (s : CSt) (hr : crun {} ls = some s)
+    (L : List Nat) (hn : L.Nodup) (hc : ∀ i, (s.ws i).ph ≠ .idle → i ∈ L) :
+    s.waiters.length + cntF creditW s.ws L = cntF insideW s.ws L := by
+  have h0 : Conserved ({} : CSt) := by
+    intro L _ _
+    have : ∀ L : List Nat, cntF creditW ({} : CSt).ws L = 0 ∧ cntF insideW ({} : CSt).ws L = 0 := by
+      intro L
+      induction L with
+      | nil => exact ⟨rfl, rfl⟩
+      | cons a t ih => simp [cntF, creditW, insideW, ih.1, ih.2]
+    simp [this L]
+  exact Conserved.runAll ls InvA.init h0 hr L hn hc
+
+/-- the consequences `CMon` uses, for every schedule, `Broadcast` included -/
+theorem C02_cond_credits_are_queued_all (ls : List CLabel) (s : CSt) (hr : crun {} ls = some s)
+    (L : List Nat) (hn : L.Nodup) (hc : ∀ i, (s.ws i).ph ≠ .idle → i ∈ L) :
+    (s.waiters ≠ [] ↔ cntF creditW s.ws L < cntF insideW s.ws L) ∧
+    ((∀ i, cfire s (.wakeTok i) = none) → ∀ i, (s.ws i).sig = true → (s.ws i).ph = .wokenTok ∨ (s.ws i).ph = .wokenCtx) := by
+  have hcons := C02_cond_signal_conservation_all ls s hr L hn hc
+  have hA := InvA.run ls InvA.init hr
+  refine ⟨?_, ?_⟩
+  · constructor
+    · intro hne
+      have : 0 < s.waiters.length := List.length_pos_iff.mpr hne
+      omega
+    · intro hlt hnil
+      rw [hnil] at hcons
+      simp at hcons
+      omega
+  · intro hq i hs
+    rcases hA.sigPh i hs with a | a | a
+    · have := hq i
+      simp [cfire, a, hs] at this
+    · exact Or.inl a
+    · exact Or.inr a
+
+/-- non-vacuity: two waiters, a Broadcast, one of them cancelled meanwhile: 0 registered + 2 credits = 2 inside -/
+example : (crun {} [.wait 0, .wait 1, .cancel 1, .broadcast]).map
+    (fun s => (s.waiters, (s.ws 0).sig, (s.ws 1).sig, (s.ws 0).ph, (s.ws 1).ph)) = some ([], true, true, .sel, .sel) := by rfl
+
 /-! ## audit follow-up: wait_for_result converse; persistent queue from an arbitrary start; the literal release clause -/
 
 /-- wait_for_result, converse of `C02_result_routing`: once a request has finished, its outcome is in the channel until
@@ -1225,6 +1279,522 @@ theorem C02_nobody_waits_after_shutdown (hk : 0 ≤ k.cap) (hr : Reachable k s) 
   · have := hq (.relockTok p) rfl; simp [fire, a] at this
   · have := hq (.relockCtx p) rfl; simp [fire, a] at this
 
+/-! ## liveness over infinite runs, under explicit fairness hypotheses
+
+`IsRun`, `SchedFair` (scheduler / mutex: minimal progress of the goroutines' own steps), `ConsFair` (the consumers keep
+taking and completing requests) and `OnlyFrom` are defined in `Lemmas/C02Fair.lean`.  These two theorems are the
+"in EVERY fair run" counterparts of `C02_quiescence_reachable` and of the existential `C02_drain_releases_all`; they are
+what `C02_deadlock_free_partial` leaves open. -/
+
+section fair
+variable {ρ : Nat → St} {lab : Nat → Option Label}
+
+/-- **every fair run comes to rest once the environment is quiet**: if from instant `n0` on only goroutine steps or
+stutters happen (no Offer, cancel, read, completion, shutdown) and the scheduler is fair (minimal progress), the run
+reaches a state at rest and stays in it for ever; in that state the release clause holds as worded: whoever is still
+inside `cond.Wait` does not fit (`size + el > cap`), on a running and non-empty queue.  No bound on the number of
+threads, no assumption on the run before `n0`. -/
+theorem C02_fair_run_comes_to_rest (hk : 0 ≤ k.cap) (hr : IsRun k ρ lab) (hf : SchedFair k ρ lab) (n0 : Nat)
+    (hq : OnlyFrom lab n0 Label.internal) :
+    ∃ m, n0 ≤ m ∧ Quiescent k (ρ m) ∧ (∀ j, m ≤ j → ρ j = ρ m) ∧
+      (∀ p, ((ρ m).ps p).ph.inCond →
+        (ρ m).size + ((ρ m).ps p).el > k.cap ∧ (ρ m).stopped = false ∧ 0 < (ρ m).size) := by
+  obtain ⟨L, hcov⟩ := covers_exists (run_reachable hr n0)
+  have h0 : DrainInv k L (ρ n0) := ⟨run_reachable hr n0, hcov⟩
+  have hqd := onlyFrom_internal_drain hq
+  have adv : ∀ n, n0 ≤ n → ¬ Quiescent k (ρ n) → ∃ m, n ≤ m ∧ Phi L (ρ (m+1)) < Phi L (ρ n) := by
+    intro n hn hqu
+    obtain ⟨m, hm, l, hl, hli⟩ := hf n hqu
+    have hmono := phi_mono_internal hk hr hq h0 n hn (m - n)
+    rw [Nat.add_sub_cancel' hm] at hmono
+    obtain ⟨_, _, _, o4, _⟩ := step_measure hk (drainInv_at hk hr hqd h0 m (by omega)) (hr.2 m) (fun l hl => hqd m (by omega) l hl)
+    exact ⟨m, hm, by have := o4 l hl hli; omega⟩
+  have main : ∀ F n, n0 ≤ n → Phi L (ρ n) ≤ F → ∃ m, n ≤ m ∧ Quiescent k (ρ m) ∧ ∀ j, m ≤ j → ρ j = ρ m := by
+    intro F
+    induction F with
+    | zero =>
+      intro n hn hF
+      by_cases hqu : Quiescent k (ρ n)
+      · refine ⟨n, Nat.le_refl _, hqu, fun j hj => ?_⟩
+        have := rest_forever hr hq n hn hqu (j - n)
+        rwa [Nat.add_sub_cancel' hj] at this
+      · obtain ⟨m, _, h⟩ := adv n hn hqu
+        omega
+    | succ F ih =>
+      intro n hn hF
+      by_cases hqu : Quiescent k (ρ n)
+      · refine ⟨n, Nat.le_refl _, hqu, fun j hj => ?_⟩
+        have := rest_forever hr hq n hn hqu (j - n)
+        rwa [Nat.add_sub_cancel' hj] at this
+      · obtain ⟨m, hm, h⟩ := adv n hn hqu
+        obtain ⟨m', a, b, c⟩ := ih (m+1) (by omega) (by omega)
+        exact ⟨m', by omega, b, c⟩
+  obtain ⟨m, hm, hqu, hst⟩ := main (Phi L (ρ n0)) n0 (Nat.le_refl _) (Nat.le_refl _)
+  refine ⟨m, hm, hqu, hst, ?_⟩
+  intro p hp
+  have hrm := run_reachable hr m
+  have hrun : (ρ m).stopped = false := by
+    cases hs : (ρ m).stopped with
+    | false => rfl
+    | true => exact absurd hp ((C02_nobody_waits_after_shutdown hk hrm hs).2 hqu p)
+  exact ⟨C02_release_on_space_full_holds k (ρ m) hk hrm hqu p hp, hrun,
+    (C02_blocked_implies_pending_completion hk hrm hrun hqu p hp).1⟩
+
+/-- **every fair run releases every blocked producer** (the liveness clause of the property, for every run instead of
+some schedule): if from instant `n0` on there is no new Offer, no cancellation and no shutdown, the queue is running,
+the scheduler is fair (minimal progress) and the consumers keep working (`ConsFair`), then at some later instant NO
+producer is inside `cond.Wait`, and every producer that was waiting for space at `n0` with a live context has been
+ENQUEUED (not refused).  Lexicographic ranking (`Omega`, `Phi`): reads/completions decrease `Omega`, goroutine steps
+decrease `Phi` without increasing `Omega`, nothing else happens. -/
+theorem C02_fair_run_releases_all (hk : 0 ≤ k.cap) (hr : IsRun k ρ lab) (hf : SchedFair k ρ lab) (hc : ConsFair ρ)
+    (n0 : Nat) (hq : OnlyFrom lab n0 Label.drain) (hs : (ρ n0).stopped = false) :
+    ∃ m, n0 ≤ m ∧ (∀ p, ¬ ((ρ m).ps p).ph.inCond) ∧
+      ∀ p, (((ρ n0).ps p).ph = .sel ∨ ((ρ n0).ps p).ph = .wokenTok) → ((ρ n0).ps p).canc = false →
+        p ∈ (ρ m).accepted := by
+  obtain ⟨L, hcov⟩ := covers_exists (run_reachable hr n0)
+  have h0 : DrainInv k L (ρ n0) := ⟨run_reachable hr n0, hcov⟩
+  have stepAt : ∀ m, n0 ≤ m →
+      Omega L (ρ (m+1)) ≤ Omega L (ρ m) ∧
+      (Omega L (ρ (m+1)) < Omega L (ρ m) ∨ (Phi L (ρ (m+1)) ≤ Phi L (ρ m) ∧ served (ρ (m+1)) = served (ρ m))) ∧
+      (∀ l, lab m = some l → l.internal = true → Phi L (ρ (m+1)) < Phi L (ρ m)) := by
+    intro m hm
+    obtain ⟨_, o1, o2, o4, _⟩ := step_measure hk (drainInv_at hk hr hq h0 m hm) (hr.2 m) (fun l hl => hq m hm l hl)
+    exact ⟨o1, o2, o4⟩
+  have core : ∀ F, (∀ n, n0 ≤ n → Phi L (ρ n) < F →
+        ∃ m, n ≤ m ∧ (Omega L (ρ m) < Omega L (ρ n) ∨ ∀ p, ¬ ((ρ m).ps p).ph.inCond)) →
+      ∀ n, n0 ≤ n → Phi L (ρ n) ≤ F →
+        ∃ m, n ≤ m ∧ (Omega L (ρ m) < Omega L (ρ n) ∨ ∀ p, ¬ ((ρ m).ps p).ph.inCond) := by
+    intro F ihF n hn hF
+    by_cases hnc : ∀ p, ¬ ((ρ n).ps p).ph.inCond
+    · exact ⟨n, Nat.le_refl _, Or.inr hnc⟩
+    · obtain ⟨p, hp'⟩ := Classical.not_forall.mp hnc
+      have hp := Classical.not_not.mp hp'
+      have hi := drainInv_at hk hr hq h0 n hn
+      have hrun := running_along hk hr hq h0 hs n hn
+      by_cases hqu : Quiescent k (ρ n)
+      · obtain ⟨_, hne⟩ := C02_blocked_implies_pending_completion hk hi.reach hrun hqu p hp
+        obtain ⟨m, hm, hsv⟩ := hc n hne
+        rcases segment hk hr hq h0 n hn (m - n) with ⟨j, a, _, c⟩ | ⟨a, _, _⟩
+        · exact ⟨j, a, Or.inl c⟩
+        · rw [Nat.add_sub_cancel' hm] at a
+          obtain ⟨_, o2, _⟩ := stepAt m (by omega)
+          rcases o2 with o2 | ⟨_, o3⟩
+          · exact ⟨m+1, by omega, Or.inl (by omega)⟩
+          · omega
+      · obtain ⟨m, hm, l, hl, hli⟩ := hf n hqu
+        rcases segment hk hr hq h0 n hn (m - n) with ⟨j, a, _, c⟩ | ⟨a, b, _⟩
+        · exact ⟨j, a, Or.inl c⟩
+        · rw [Nat.add_sub_cancel' hm] at a b
+          obtain ⟨o1, _, o4⟩ := stepAt m (by omega)
+          have hlt := o4 l hl hli
+          obtain ⟨m', hm', h⟩ := ihF (m+1) (by omega) (by omega)
+          rcases h with h | h
+          · exact ⟨m', by omega, Or.inl (by omega)⟩
+          · exact ⟨m', by omega, Or.inr h⟩
+  have drop : ∀ F n, n0 ≤ n → Phi L (ρ n) ≤ F →
+      ∃ m, n ≤ m ∧ (Omega L (ρ m) < Omega L (ρ n) ∨ ∀ p, ¬ ((ρ m).ps p).ph.inCond) := by
+    intro F
+    induction F with
+    | zero => exact core 0 (fun n _ h => absurd h (Nat.not_lt_zero _))
+    | succ F ih => exact core (F+1) (fun n hn h => ih n hn (by omega))
+  have main : ∀ W n, n0 ≤ n → Omega L (ρ n) ≤ W → ∃ m, n ≤ m ∧ ∀ p, ¬ ((ρ m).ps p).ph.inCond := by
+    intro W
+    induction W with
+    | zero =>
+      intro n hn hW
+      obtain ⟨m, hm, h⟩ := drop (Phi L (ρ n)) n hn (Nat.le_refl _)
+      rcases h with h | h
+      · omega
+      · exact ⟨m, hm, h⟩
+    | succ W ih =>
+      intro n hn hW
+      obtain ⟨m, hm, h⟩ := drop (Phi L (ρ n)) n hn (Nat.le_refl _)
+      rcases h with h | h
+      · obtain ⟨m', a, b⟩ := ih m (by omega) (by omega)
+        exact ⟨m', by omega, b⟩
+      · exact ⟨m, hm, h⟩
+  obtain ⟨m, hm, hnc⟩ := main (Omega L (ρ n0)) n0 (Nat.le_refl _) (Nat.le_refl _)
+  refine ⟨m, hm, hnc, ?_⟩
+  intro p hp hcn
+  rcases tracked_along hk hr hq p (Or.inl ⟨hp, hcn, hs⟩) m hm with ⟨a, _⟩ | a
+  · rcases a with a | a
+    · exact absurd (Or.inl a) (hnc p)
+    · exact absurd (Or.inr (Or.inl a)) (hnc p)
+  · exact a
+
+end fair
+
+/-! ## persistent queue: what `Size()` reports across lives (`Model/C02R.lean`: back-up cadence, restart, re-enqueue)
+
+Every theorem is over ALL scripts of offers, reads, completions (also with a shutdown error), shutdowns and restarts
+(with or without a preceding shutdown, with any new capacity and sizer), from an empty storage. -/
+
+/-- the reported size is never negative, in any life, after any history -/
+theorem C02_pq_size_never_negative (c : R.RCfg) (ops : List R.ROp) : 0 ≤ (R.run c {} ops).2.size :=
+  (R.RInv.run R.RInv.init ops).nonneg
+
+/-- requests sizer: right after EVERY (re)start — clean or not, whatever sizer, capacity and back-ups the earlier lives
+had — the reported size is exactly the number of stored requests `wi - ri` (the stale `si` snapshot is not consulted and
+every re-enqueued dispatched request counts 1).  Hence the observation "restored size > capacity" can only come from
+more requests being stored than the (new) capacity, never from a wrong count. -/
+theorem C02_pq_requests_sized_restart_exact (c : R.RCfg) (ops : List R.ROp) (c' : R.RCfg) (hc : c'.reqSized = true) :
+    let s := (R.run c {} (ops ++ [.restart c'])).2
+    s.size = ((s.wi - s.ri : Nat) : Int) := by
+  have e : ∀ (ops : List R.ROp) (c : R.RCfg) (s0 : R.RSt),
+      (R.run c s0 (ops ++ [.restart c'])).2 = R.restart c' (R.run c s0 ops).2 := by
+    intro ops
+    induction ops with
+    | nil => intro c s0; rfl
+    | cons o os ih => intro c s0; simp only [List.cons_append, R.run]; exact ih _ _
+  have h := R.RInv.run (c := c) R.RInv.init ops
+  simp only [e]
+  exact R.restart_req_exact hc h
+
+/-- every sizer: a (re)started queue with nothing queued reports 0 — the `si` snapshot is only consulted when something
+is stored (this is the `emptyZero` hypothesis of `C02_persistent_size_any_start`, now proved for the constructor) -/
+theorem C02_pq_restart_on_nothing_is_zero (c : R.RCfg) (ops : List R.ROp) (c' : R.RCfg) :
+    let s := R.restart c' (R.run c {} ops).2
+    s.wi = s.ri → s.size = 0 :=
+  fun he => R.restart_empty_zero (R.RInv.run R.RInv.init ops) he
+
+/-- a new life sees exactly the read and write index the previous one had (storage never fails), in particular
+`ri ≤ wi`: the unsigned subtraction `wi - ri` of `initPersistentContiguousStorage` cannot wrap -/
+theorem C02_pq_restart_recovers_indexes (c : R.RCfg) (ops : List R.ROp) :
+    let s := (R.run c {} ops).2
+    R.restartIdx s = (s.ri, s.wi) ∧ s.ri ≤ s.wi ∧ s.sDi = s.disp :=
+  let h := R.RInv.run (c := c) R.RInv.init ops
+  ⟨R.restartIdx_eq h, h.le, h.syncD⟩
+
+/-- soundness of the clause functions the `pqsize` verdict is computed from -/
+theorem C02_check_pqsize_sound (cap sizeBefore el size sumU sumF : Int) (full reqSized : Bool) (nQ : Nat) :
+    (R.refusalClause cap sizeBefore el full = true → (full = true ↔ sizeBefore + el > cap)) ∧
+    (R.restartClause reqSized size nQ = true → (nQ = 0 → size = 0) ∧ (reqSized = true → size = (nQ : Int))) ∧
+    (R.freshClause cap size sumU = true → 0 ≤ size ∧ size ≤ cap ∧ size ≤ sumU) ∧
+    (R.anyClause size sumF nQ = true → 0 ≤ size ∧ (nQ = 0 → size ≤ sumF)) := by
+  refine ⟨?_, ?_, ?_, ?_⟩
+  · intro h
+    simp only [R.refusalClause, beq_iff_eq] at h
+    rw [h]; simp
+  · intro h
+    simp only [R.restartClause, Bool.and_eq_true, Bool.or_eq_true, bne_iff_ne, beq_iff_eq, Bool.not_eq_true'] at h
+    refine ⟨fun h0 => ?_, fun hr => ?_⟩
+    · rcases h.1 with a | a
+      · exact absurd h0 a
+      · exact a
+    · rcases h.2 with a | a
+      · rw [hr] at a; cases a
+      · exact a
+  · intro h
+    simp only [R.freshClause, Bool.and_eq_true, decide_eq_true_eq] at h
+    exact ⟨h.1.1, h.1.2, h.2⟩
+  · intro h
+    simp only [R.anyClause, Bool.and_eq_true, Bool.or_eq_true, bne_iff_ne, decide_eq_true_eq] at h
+    refine ⟨h.1, fun h0 => ?_⟩
+    rcases h.2 with a | a
+    · exact absurd h0 a
+    · exact a
+
+/-- non-vacuity: capacity 2, requests sizer: two requests accepted and read (the size is reset to 0 at `ri = wi`), two more
+accepted, the process is killed: the new life re-enqueues the two dispatched requests and reports 4 > 2 — exact count,
+above the capacity -/
+example : (R.run { cap := 2, reqSized := true } {}
+    [.offer 1, .offer 1, .read, .read, .offer 1, .offer 1, .restart { cap := 2, reqSized := true }]).2.size = 4 := by rfl
+
+/-- non-vacuity: items sizer, a stale snapshot: the 5th write backs up size 5, three more writes, killed: restored 5 ≠ 8 -/
+example : (R.run { cap := 100, reqSized := false } {}
+    [.offer 1, .offer 1, .offer 1, .offer 1, .offer 1, .offer 1, .offer 1, .offer 1, .restart { cap := 100, reqSized := false }]).2.size = 5 := by rfl
+
+/-! ## the consumer pool of `async_queue.go` (`Model/C02A.lean`): any number of consumers, memory or persistent queue -/
+
+/-- the pool refines the queue: the queue behind a pool is a reachable state of `fire` (memory) / `pfire` (persistent), so
+every theorem above (FIFO, exactly-once, size, refusal, wake-ups) holds for the queue as the exporter's consumers drive it -/
+theorem C02_async_refines_queue {pl : A.Pool} {a : A.ASt} (hr : A.AReachable k pl a) :
+    (pl.persistent = false → Reachable k a.q) ∧ (pl.persistent = true → PReachable k a.q) :=
+  A.areach_queue hr
+
+/-- the consumers' phases are consistent with the queue, in every reachable state: the consumers sleeping inside `Read`
+(parked or notified) are exactly the pool's consumers in phase `parked`, none of them twice; a consumer has left its loop only
+if the queue was shut down -/
+theorem C02_async_consumer_phases {pl : A.Pool} {a : A.ASt} (hr : A.AReachable k pl a) :
+    (∀ c, c ∈ a.q.cwait ++ a.q.cwoken ↔ a.cs c = .parked) ∧ (∀ c, c ∈ a.q.cwait ++ a.q.cwoken → c < pl.n) ∧
+    (a.q.cwait ++ a.q.cwoken).Nodup ∧ (∀ c, a.cs c = .exited → a.q.stopped = true) :=
+  let h := A.AInv.reachable hr
+  ⟨fun c => ⟨fun hc => (h.inW c hc).1, h.parked c⟩, fun c hc => (h.inW c hc).2, h.nodup, h.exited⟩
+
+/-- **the pool is work-conserving** ("every accepted request is handed to a consumer" at pool level): in every reachable
+state at rest — no consumer and no producer goroutine can take a step of its own — of a running queue, a request is queued
+only while EVERY one of the `numConsumers` consumers is inside `consumeFunc`.  Memory and persistent queue, any number of
+consumers, every schedule. -/
+theorem C02_async_work_conserving {pl : A.Pool} {a : A.ASt} (hr : A.AReachable k pl a) (hq : A.AQuiescent k pl a)
+    (hs : a.q.stopped = false) (hi : a.q.items ≠ []) : ∀ c, c < pl.n → ∃ id, a.cs c = .busy id :=
+  A.work_conserving hr hq hs hi
+
+/-- **exactly-once at the level of `consumeFunc`**: in every reachable state of the pool, whoever is inside `consumeFunc`
+holds a request that was handed over by the queue, and no two consumers hold the same request (with `C02_exactly_once` /
+`C02_persistent_exactly_once` behind the pool: handed over once, to one consumer) -/
+theorem C02_async_exactly_once {pl : A.Pool} {a : A.ASt} (hk : 0 ≤ k.cap) (hr : A.AReachable k pl a) :
+    (∀ c id, a.cs c = .busy id → id ∈ a.q.handed) ∧ (∀ c c' id, a.cs c = .busy id → a.cs c' = .busy id → c = c') ∧
+    a.q.handed.Nodup :=
+  let h := A.BInv.reachable hk hr
+  ⟨h.sub, h.inj, A.handed_nodup_of hk hr⟩
+
+/-- soundness of the clause functions the `async` verdict is computed from -/
+theorem C02_check_async_sound (n queued busy : Nat) (persistent deferred stopped : Bool) (left bs : List Nat) :
+    (A.workClause n persistent deferred stopped queued busy = true → stopped = false → queued ≠ 0 → deferred = false ∧ busy = n) ∧
+    (A.onceClause left bs = true → ∀ id ∈ bs, id ∉ left) := by
+  refine ⟨?_, ?_⟩
+  · intro h hs hq
+    simp only [A.workClause, hs, Bool.and_false, Bool.false_or, Bool.or_eq_true, beq_iff_eq, Bool.and_eq_true,
+      Bool.not_eq_true'] at h
+    rcases h with h | h
+    · exact absurd h hq
+    · exact h
+  · intro h id hid hl
+    simp only [A.onceClause, Bool.and_eq_true, List.all_eq_true, Bool.not_eq_true'] at h
+    have := h.1 id hid
+    simp [hl] at this
+
+/-- non-vacuity: two consumers, capacity 3: both park at start; three requests of size 1: the first two are taken, the
+third waits while both consumers are inside `consumeFunc` — at rest, every hypothesis of `C02_async_work_conserving` holds -/
+def poolDemo : List A.ALabel :=
+  [.cread 0, .cread 1, .q (.offer 0 1), .crecheck 0, .q (.offer 1 1), .crecheck 1, .q (.offer 2 1)]
+
+example : (A.arun { cap := 3, block := true, wfr := false } { n := 2, persistent := false } {} poolDemo).map
+    (fun a => (a.q.items.map Prod.fst, a.cs 0, a.cs 1, a.q.cwait, a.q.cwoken, a.q.stopped)) =
+    some ([2], .busy 0, .busy 1, [], [], false) := by rfl
+
+/-! ## persistent queue: termination of the goroutines' own activity, and rest in every fair run (`Lemmas/C02PLive.lean`) -/
+
+/-- persistent counterpart of `C02_deadlock_free_full`: from every reachable state the goroutines can take only boundedly
+many steps on their own -/
+def C02_persistent_deadlock_free_full : Prop :=
+  ∀ (k : Cfg) (s : St), 0 ≤ k.cap → PReachable k s →
+    ∃ n, ∀ ls, (∀ l ∈ ls, Label.internal l = true) → (prunSched k s ls).isSome = true → ls.length ≤ n
+
+/-- it holds; the ranking `PPhi` weighs every notified consumer and every producer inside `cond.Wait` with `2·|threads|+1`,
+because in the persistent queue a consumer's own step (reading the last stored request) broadcasts to all waiting producers -/
+theorem C02_persistent_deadlock_free_full_holds : C02_persistent_deadlock_free_full := by
+  intro k s hk hr
+  obtain ⟨L, hc⟩ := pcovers_exists hr
+  exact ⟨PPhi L s, fun ls hi hs => pinternal_run_bounded hk ls s hr hc hi hs⟩
+
+/-- the persistent queue's own activity always comes to rest: some finite internal schedule reaches a state at rest, where
+`C02_persistent_release_on_space`, `C02_persistent_no_lost_wakeup` and
+`C02_persistent_no_request_waits_beside_parked_consumer` apply -/
+theorem C02_persistent_quiescence_reachable (hk : 0 ≤ k.cap) (hr : PReachable k s) :
+    ∃ ls s', (∀ l ∈ ls, Label.internal l = true) ∧ prunSched k s ls = some s' ∧ PQuiescent k s' := by
+  obtain ⟨L, hc⟩ := pcovers_exists hr
+  exact pexists_quiesce hk (PPhi L s) s hr hc (Nat.le_refl _)
+
+/-- **every fair run of the persistent queue comes to rest once the environment is quiet** and stays there; in that state
+whoever is still inside `cond.Wait` does not fit, and something is still queued or in flight (whose completion will
+broadcast) — the release clause as worded, for every run under scheduler fairness (minimal progress) -/
+theorem C02_persistent_fair_run_comes_to_rest {ρ : Nat → St} {lab : Nat → Option Label} (hk : 0 ≤ k.cap)
+    (hr : PIsRun k ρ lab) (hf : PSchedFair k ρ lab) (n0 : Nat) (hq : InternalFrom lab n0) :
+    ∃ m, n0 ≤ m ∧ PQuiescent k (ρ m) ∧ (∀ j, m ≤ j → ρ j = ρ m) ∧
+      (∀ p, ((ρ m).ps p).ph.inCond →
+        (ρ m).size + ((ρ m).ps p).el > k.cap ∧ ((ρ m).items ≠ [] ∨ (ρ m).inflight ≠ [])) := by
+  obtain ⟨m, hm, hqu, hst⟩ := pfair_run_comes_to_rest hk hr hf n0 hq
+  refine ⟨m, hm, hqu, hst, fun p hp => ?_⟩
+  have hrm := prun_reachable hr m
+  exact ⟨C02_persistent_release_on_space hk hrm hqu p hp, (C02_persistent_no_lost_wakeup hk hrm hqu).1 p hp⟩
+
+/-- **every fair run of the persistent queue releases every blocked producer**: if from instant `n0` on there is no new
+Offer, no cancellation and no shutdown, the queue is running, the scheduler is fair (minimal progress) and the consumers keep
+working (`PConsFair`: whenever a request is stored or in flight, eventually one is taken or completed), then at some later
+instant NO producer is inside `cond.Wait`.  Lexicographic ranking (`Omega`, `PPhi`). -/
+theorem C02_persistent_fair_run_releases_all {ρ : Nat → St} {lab : Nat → Option Label} (hk : 0 ≤ k.cap) (hr : PIsRun k ρ lab)
+    (hf : PSchedFair k ρ lab) (hc : PConsFair ρ) (n0 : Nat) (hq : DrainFrom lab n0) (hs : (ρ n0).stopped = false) :
+    ∃ m, n0 ≤ m ∧ ∀ p, ¬ ((ρ m).ps p).ph.inCond := by
+  obtain ⟨L, h0⟩ := pcovers_exists (prun_reachable hr n0)
+  have core : ∀ F, (∀ n, n0 ≤ n → PPhi L (ρ n) < F →
+        ∃ m, n ≤ m ∧ (Omega L (ρ m) < Omega L (ρ n) ∨ ∀ p, ¬ ((ρ m).ps p).ph.inCond)) →
+      ∀ n, n0 ≤ n → PPhi L (ρ n) ≤ F →
+        ∃ m, n ≤ m ∧ (Omega L (ρ m) < Omega L (ρ n) ∨ ∀ p, ¬ ((ρ m).ps p).ph.inCond) := by
+    intro F ihF n hn hF
+    by_cases hnc : ∀ p, ¬ ((ρ n).ps p).ph.inCond
+    · exact ⟨n, Nat.le_refl _, Or.inr hnc⟩
+    · obtain ⟨p, hp'⟩ := Classical.not_forall.mp hnc
+      have hp := Classical.not_not.mp hp'
+      by_cases hqu : PQuiescent k (ρ n)
+      · have hne := (C02_persistent_no_lost_wakeup hk (prun_reachable hr n) hqu).1 p hp
+        obtain ⟨m, hm, hsv⟩ := hc n hne
+        rcases psegment hk hr hq h0 hs n hn (m - n) with ⟨j, a, _, c⟩ | ⟨a, _⟩
+        · exact ⟨j, a, Or.inl c⟩
+        · rw [Nat.add_sub_cancel' hm] at a
+          obtain ⟨_, o0, _⟩ := pstep_measure hk hr hq m (by omega) (pcovers_along hk hr hq h0 hs m (by omega)).1
+          refine ⟨m+1, by omega, Or.inl ?_⟩
+          have e1 := omega_eq L (ρ (m+1))
+          have e2 := omega_eq L (ρ m)
+          omega
+      · obtain ⟨m, hm, l, hl, hli⟩ := hf n hqu
+        rcases psegment hk hr hq h0 hs n hn (m - n) with ⟨j, a, _, c⟩ | ⟨a, b⟩
+        · exact ⟨j, a, Or.inl c⟩
+        · rw [Nat.add_sub_cancel' hm] at a b
+          obtain ⟨_, _, o1, _, o3, _⟩ := pstep_measure hk hr hq m (by omega) (pcovers_along hk hr hq h0 hs m (by omega)).1
+          have hlt := o3 l hl hli
+          obtain ⟨m', hm', h⟩ := ihF (m+1) (by omega) (by omega)
+          rcases h with h | h
+          · exact ⟨m', by omega, Or.inl (by omega)⟩
+          · exact ⟨m', by omega, Or.inr h⟩
+  have drop : ∀ F n, n0 ≤ n → PPhi L (ρ n) ≤ F →
+      ∃ m, n ≤ m ∧ (Omega L (ρ m) < Omega L (ρ n) ∨ ∀ p, ¬ ((ρ m).ps p).ph.inCond) := by
+    intro F
+    induction F with
+    | zero => exact core 0 (fun n _ h => absurd h (Nat.not_lt_zero _))
+    | succ F ih => exact core (F+1) (fun n hn h => ih n hn (by omega))
+  have main : ∀ W n, n0 ≤ n → Omega L (ρ n) ≤ W → ∃ m, n ≤ m ∧ ∀ p, ¬ ((ρ m).ps p).ph.inCond := by
+    intro W
+    induction W with
+    | zero =>
+      intro n hn hW
+      obtain ⟨m, hm, h⟩ := drop (PPhi L (ρ n)) n hn (Nat.le_refl _)
+      rcases h with h | h
+      · omega
+      · exact ⟨m, hm, h⟩
+    | succ W ih =>
+      intro n hn hW
+      obtain ⟨m, hm, h⟩ := drop (PPhi L (ρ n)) n hn (Nat.le_refl _)
+      rcases h with h | h
+      · obtain ⟨m', a, b⟩ := ih m (by omega) (by omega)
+        exact ⟨m', by omega, b⟩
+      · exact ⟨m, hm, h⟩
+  exact main (Omega L (ρ n0)) n0 (Nat.le_refl _) (Nat.le_refl _)
+
+/-- non-vacuity: capacity 2, blocking: the consumer parks, request 0 (size 2) is stored and taken (the size is reset to 0 at
+`ri = wi`), requests 1 and 2 fill the queue, producer 3 (size 1) blocks; the completion of request 0 (size 2 - 2 = 0) broadcasts:
+producer 3 still has to wake up and re-lock — a reachable state NOT at rest, from which only goroutine steps follow -/
+example : (prunSched { cap := 2, block := true, wfr := false } {}
+    [.read 0, .offer 0 2, .recheck 0, .offer 1 1, .offer 2 1, .offer 3 1, .complete 0 0]).map
+    (fun s => (s.size, (s.ps 3).ph, (s.ps 3).sig, s.items.map Prod.fst)) = some (0, .sel, true, [1, 2]) := by rfl
+
+/-! ## the model's guards and wake-up calls are the ones REGENERATED from the source (`Gen/QueueGuards.lean`, `Model/C02G.lean`) -/
+
+/-- **`memoryQueue.Offer`'s guards are the regenerated ones**: the `offer` transition of the LTS is the interpretation of the
+guard table extracted from the current source (`== 0 → nil`, `<= 0 → errInvalidSize`, `> cap → errSizeTooLarge`, in this order),
+followed by `add` -/
+theorem C02_offer_guards_regenerated (k : Cfg) (s : St) (p : Nat) (el : Int) (h : (s.ps p).ph = .idle) :
+    fire k s (.offer p el) = some (
+      match G.first ⟨el, k.cap, s.size, k.block, s.stopped⟩ Gen.QueueGuards.memOffer with
+      | some (some .ok) => setP s p { s.ps p with ph := .done .ok }
+      | some (some r) => refuse s p r
+      | some none => tryAdd k s p el
+      | none => s) := by
+  simp only [fire, h, if_true]
+  by_cases h0 : el = 0
+  · simp [h0, G.first, G.holds, G.opnd, G.cmp, G.ret, Gen.QueueGuards.memOffer]
+  · by_cases h1 : el < 0
+    · have h1' : el ≤ 0 := by omega
+      simp [h0, h1, h1', G.first, G.holds, G.opnd, G.cmp, G.ret, Gen.QueueGuards.memOffer]
+    · have h1' : ¬ el ≤ 0 := by omega
+      by_cases h2 : el > k.cap
+      · simp [h0, h1, h1', h2, G.first, G.holds, G.opnd, G.cmp, G.ret, Gen.QueueGuards.memOffer]
+      · simp [h0, h1, h1', h2, G.first, G.holds, G.opnd, G.cmp, G.ret, Gen.QueueGuards.memOffer]
+
+/-- **the overflow loop of `memoryQueue.add` is the regenerated one** -/
+theorem C02_add_loop_regenerated (k : Cfg) (s : St) (p : Nat) (el : Int) :
+    tryAdd k s p el =
+      match G.holds ⟨el, k.cap, s.size, k.block, s.stopped⟩ Gen.QueueGuards.memLoopCond with
+      | some true =>
+        (match G.first ⟨el, k.cap, s.size, k.block, s.stopped⟩ Gen.QueueGuards.memLoopBody with
+         | some (some r) => refuse s p r
+         | some none => register s p el
+         | none => s)
+      | some false =>
+        (match G.first ⟨el, k.cap, s.size, k.block, s.stopped⟩ Gen.QueueGuards.memAfterLoop with
+         | some (some r) => refuse s p r
+         | some none => accept k s p el
+         | none => s)
+      | none => s := by
+  unfold tryAdd
+  by_cases h1 : s.size + el > k.cap <;> cases hb : k.block <;> cases hs : s.stopped <;>
+    simp [h1, hb, hs, G.first, G.holds, G.opnd, G.cmp, G.ret, Gen.QueueGuards.memLoopCond, Gen.QueueGuards.memLoopBody, Gen.QueueGuards.memAfterLoop]
+
+/-- **the overflow loop of `persistentQueue.putInternal` is the regenerated one** -/
+theorem C02_put_loop_regenerated (k : Cfg) (s : St) (p : Nat) (el : Int) :
+    ptryAdd k s p el =
+      match G.holds ⟨el, k.cap, s.size, k.block, s.stopped⟩ Gen.QueueGuards.pqLoopCond with
+      | some true =>
+        (match G.first ⟨el, k.cap, s.size, k.block, s.stopped⟩ Gen.QueueGuards.pqLoopBody with
+         | some (some r) => refuse s p r
+         | some none => register s p el
+         | none => s)
+      | some false =>
+        (match G.first ⟨el, k.cap, s.size, k.block, s.stopped⟩ Gen.QueueGuards.pqAfterLoop with
+         | some (some r) => refuse s p r
+         | some none => paccept s p el
+         | none => s)
+      | none => s := by
+  unfold ptryAdd
+  by_cases h1 : s.size + el > k.cap <;> cases hb : k.block <;> by_cases h2 : el > k.cap <;>
+    simp [h1, hb, h2, G.first, G.holds, G.opnd, G.cmp, G.ret, Gen.QueueGuards.pqLoopCond, Gen.QueueGuards.pqLoopBody, Gen.QueueGuards.pqAfterLoop]
+
+/-- **every wake-up call of the source is a transition of the model and vice versa**: the regenerated list of all
+Signal / Broadcast call sites on the two condition variables is exactly the list the LTS was written for -
+`accept`/`paccept` notify ONE consumer (`hasMoreElements.Signal`), `finish`/`pfinish` and `ppop`'s reset wake ALL producers
+(`hasMoreSpace.Broadcast`), `shutdown` wakes all consumers (and, memory queue only, all producers) -/
+theorem C02_wakeup_sites_regenerated :
+    Gen.QueueGuards.condSites =
+      [("memoryQueue.add", "hasMoreElements", "Signal"),
+       ("memoryQueue.onDone", "hasMoreSpace", "Broadcast"),
+       ("memoryQueue.Shutdown", "hasMoreElements", "Broadcast"),
+       ("memoryQueue.Shutdown", "hasMoreSpace", "Broadcast"),
+       ("persistentQueue.Shutdown", "hasMoreElements", "Broadcast"),
+       ("persistentQueue.writeInternal", "hasMoreElements", "Signal"),
+       ("persistentQueue.Read", "hasMoreSpace", "Broadcast"),
+       ("persistentQueue.onDone", "hasMoreSpace", "Broadcast")] := by decide
+
+/-! ## `Config.Validate` (`Model/C02V.lean`): the hypotheses of the queue theorems hold for every validated configuration -/
+
+/-- every ENABLED configuration that passes `Validate` has a positive `queue_size` (so `0 ≤ k.cap`, the hypothesis of all the
+theorems above, holds for the queue built from it), at least one consumer (the pool of `C02_async_work_conserving` is not
+empty), with `storage` the requests sizer and no `wait_for_result` (the persistent LTS has no result channel), and with
+`batch` the items or bytes sizer -/
+theorem C02_validated_config_meets_hypotheses (c : V.QCfg) (h : V.validate c = .ok) (he : c.enabled = true) :
+    0 < c.queueSize ∧ 0 < c.numConsumers ∧ (c.storage = true → c.sizer = .requests ∧ c.wfr = false) ∧
+    (c.batch.isSome = true → c.sizer = .items ∨ c.sizer = .bytes) := by
+  unfold V.validate at h
+  simp only [he, Bool.not_true, Bool.false_eq_true, if_false] at h
+  split at h
+  · cases h
+  · rename_i h1
+    split at h
+    · cases h
+    · rename_i h2
+      split at h
+      · cases h
+      · rename_i h3
+        split at h
+        · cases h
+        · rename_i h4
+          split at h
+          · cases h
+          · rename_i h5
+            refine ⟨by omega, by omega, ?_, ?_⟩
+            · intro hs
+              simp only [hs, Bool.true_and, Bool.not_eq_true] at h3 h4
+              refine ⟨?_, h3⟩
+              cases hz : c.sizer <;> simp [hz] at h4 ⊢
+            · intro hb
+              simp only [hb, Bool.true_and, Bool.not_eq_true] at h5
+              cases hz : c.sizer <;> simp [hz] at h5 ⊢
+
+/-- soundness of the clause the `validate` verdict is computed from -/
+theorem C02_check_validate_sound (enabled storage wfr reqSizer : Bool) (nc qs : Int)
+    (h : V.acceptClause true enabled nc qs storage wfr reqSizer = true) (he : enabled = true) :
+    0 < nc ∧ 0 < qs ∧ (storage = true → reqSizer = true ∧ wfr = false) := by
+  simp only [V.acceptClause, he, Bool.and_self, Bool.not_true, Bool.false_or, Bool.and_eq_true, decide_eq_true_eq,
+    Bool.or_eq_true, Bool.not_eq_true'] at h
+  refine ⟨h.1.1, h.1.2, fun hs => ?_⟩
+  rcases h.2 with a | a
+  · rw [hs] at a; cases a
+  · exact a
+
+/-- non-vacuity: a persistent-queue configuration that passes, and the edge that does not -/
+example : V.validate { enabled := true, numConsumers := 2, queueSize := 5, storage := true, wfr := false, sizer := .requests, batch := none } = .ok ∧
+    V.validate { enabled := true, numConsumers := 2, queueSize := 0, storage := false, wfr := false, sizer := .items, batch := none } = .queueSize := by
+  decide
+
 /-- the former head-of-line witness: the completion of request 0 now wakes producers 1 AND 2; both get in -/
 example : (runSched k10 {} (hol ++ [.wakeTok 2, .relockTok 2])).map
     (fun s => ((s.ps 1).ph, (s.ps 2).ph, s.size, s.waiters)) = some (.done .ok, .done .ok, 7, []) := by rfl
@@ -1253,5 +1823,325 @@ example : (runSched k2 {} [.offer 0 2, .offer 1 1]).map (fun s => (s.waiters, (s
     some ([1], .sel, 2) := by rfl
 
 example : Check.fifoRun ([], [], []) [([], [0]), ([], [0, 1]), ([0], [1]), ([1], [2])] = some ([0, 1, 2], [0, 1], [2]) := by decide
+
+/-! ## non-vacuity of the fair-run theorems: concrete runs meeting every hypothesis
+
+Capacity 2, `block_on_overflow`: producer 0 (size 2) is accepted, producer 1 (size 1) blocks; the consumer takes and
+completes request 0 (Broadcast), producer 1 wakes, re-locks and is enqueued; its request is taken and completed; then the
+run stutters for ever (`playStates` / `playLabs`, `Lemmas/C02Fair.lean`). -/
+
+def fairSched : List Label :=
+  [.offer 0 2, .offer 1 1, .read 7, .complete 0 0, .wakeTok 1, .relockTok 1, .read 7, .complete 1 0]
+
+/-- a state reached by a schedule in which only producers 0 and 1 offered, both have returned and no consumer is on its
+way, is at rest -/
+theorem rest_of_sched (ls : List Label) (s' : St) (h : runSched k2 {} ls = some s')
+    (h0 : ∃ r, (s'.ps 0).ph = .done r) (h1 : ∃ r, (s'.ps 1).ph = .done r) (hw : s'.cwoken = [])
+    (hl : ∀ l ∈ ls, ∀ q el, l = .offer q el → q = 0 ∨ q = 1) : Quiescent k2 s' := by
+  apply quiescent_of _ hw
+  intro p
+  by_cases e0 : p = 0
+  · subst e0; exact Or.inr (Or.inl h0)
+  by_cases e1 : p = 1
+  · subst e1; exact Or.inr (Or.inl h1)
+  left
+  exact idle_run ls {} s' p h rfl (fun l hl' el e => by rcases hl l hl' p el e with a | a <;> contradiction)
+
+theorem fairSched_offers (n : Nat) : ∀ l ∈ fairSched.take n, ∀ q el, l = .offer q el → q = 0 ∨ q = 1 := by
+  intro l hl q el e
+  have hm := List.mem_of_mem_take hl
+  subst e
+  simp [fairSched] at hm
+  omega
+
+theorem fairSched_ok : (runSched k2 {} fairSched).isSome = true := by rfl
+
+theorem fair_final : runSched k2 {} fairSched = some (playStates k2 {} fairSched 8) :=
+  play_take k2 fairSched {} 8 fairSched_ok
+
+/-- from instant 6 on the example run is at rest at every instant -/
+theorem fair_rest (n : Nat) (hn : 6 ≤ n) : Quiescent k2 (playStates k2 {} fairSched n) := by
+  have key := play_take k2 fairSched {} n fairSched_ok
+  refine rest_of_sched _ _ key ?_ ?_ ?_ (fairSched_offers n)
+  all_goals
+    match n, hn with
+    | 6, _ => first | exact ⟨.ok, rfl⟩ | rfl
+    | 7, _ => first | exact ⟨.ok, rfl⟩ | rfl
+    | n+8, _ =>
+      rw [play_after fair_final (n+8) (by simp [fairSched])]
+      first | exact ⟨.ok, rfl⟩ | rfl
+
+example : ∃ (ρ : Nat → St) (lab : Nat → Option Label),
+    IsRun k2 ρ lab ∧ SchedFair k2 ρ lab ∧ ConsFair ρ ∧ OnlyFrom lab 2 Label.drain ∧ (ρ 2).stopped = false ∧
+    ((ρ 2).ps 1).ph = .sel ∧ ((ρ 2).ps 1).canc = false := by
+  refine ⟨playStates k2 {} fairSched, playLabs fairSched, play_isRun ⟨[], rfl⟩ fairSched_ok, ?_, ?_,
+    onlyFrom_play _ _ _ (by decide), rfl, rfl, rfl⟩
+  · intro n hq
+    by_cases h4 : n ≤ 4
+    · exact ⟨4, h4, .wakeTok 1, rfl, rfl⟩
+    by_cases h5 : n = 5
+    · exact ⟨5, by omega, .relockTok 1, rfl, rfl⟩
+    exact absurd (fair_rest n (by omega)) hq
+  · intro n hne
+    by_cases h6 : n ≤ 6
+    · exact ⟨6, h6, by decide⟩
+    by_cases h7 : n = 7
+    · exact ⟨7, by omega, by decide⟩
+    rw [play_after fair_final n (by simp [fairSched]; omega)] at hne
+    exact absurd rfl hne
+
+def restSched : List Label := fairSched.take 6
+
+theorem restSched_ok : (runSched k2 {} restSched).isSome = true := by rfl
+
+theorem rest_final : runSched k2 {} restSched = some (playStates k2 {} restSched 6) :=
+  play_take k2 restSched {} 6 restSched_ok
+
+/-- hypotheses of `C02_fair_run_comes_to_rest` are met by a run that is NOT at rest at `n0 = 4` (producer 1 has just been
+signalled by the completion's Broadcast and still has to wake up and re-lock) -/
+example : ∃ (ρ : Nat → St) (lab : Nat → Option Label),
+    IsRun k2 ρ lab ∧ SchedFair k2 ρ lab ∧ OnlyFrom lab 4 Label.internal ∧
+    (fire k2 (ρ 4) (.wakeTok 1)).isSome = true ∧ ((ρ 4).ps 1).ph = .sel := by
+  refine ⟨playStates k2 {} restSched, playLabs restSched, play_isRun ⟨[], rfl⟩ restSched_ok, ?_,
+    onlyFrom_play _ _ _ (by decide), rfl, rfl⟩
+  intro n hq
+  by_cases h4 : n ≤ 4
+  · exact ⟨4, h4, .wakeTok 1, rfl, rfl⟩
+  by_cases h5 : n = 5
+  · exact ⟨5, by omega, .relockTok 1, rfl, rfl⟩
+  refine absurd ?_ hq
+  rw [play_after rest_final n (by simp [restSched, fairSched]; omega)]
+  exact rest_of_sched _ _ rest_final ⟨.ok, rfl⟩ ⟨.ok, rfl⟩ rfl (fairSched_offers 6)
+
+/-! ## non-vacuity of the persistent fair-run theorems -/
+
+/-- capacity 2, blocking: the consumer parks; request 0 (size 2) is stored and taken (the size is reset to 0 at `ri = wi`);
+request 1 (size 2) is stored; producer 2 (size 1) blocks; request 0 completes (2 - 2 = 0, Broadcast): producer 2 wakes, re-locks and
+is stored; everything is taken and completed; then the run stutters for ever -/
+def pfairSched : List Label :=
+  [.read 0, .offer 0 2, .recheck 0, .offer 1 2, .offer 2 1, .complete 0 0, .wakeTok 2, .relockTok 2,
+   .read 0, .complete 1 0, .read 0, .complete 2 0]
+
+theorem pfairSched_ok : (prunSched k2 {} pfairSched).isSome = true := by rfl
+
+theorem pfair_final : prunSched k2 {} pfairSched = some (pplayStates k2 {} pfairSched 12) :=
+  pplay_take k2 pfairSched {} 12 pfairSched_ok
+
+theorem pfairSched_offers (n : Nat) : ∀ l ∈ pfairSched.take n, ∀ q el, l = .offer q el → q = 0 ∨ q = 1 ∨ q = 2 := by
+  intro l hl q el e
+  have hm := List.mem_of_mem_take hl
+  subst e
+  simp [pfairSched] at hm
+  omega
+
+theorem prest_of_sched (ls : List Label) (s' : St) (h : prunSched k2 {} ls = some s')
+    (h0 : ∃ r, (s'.ps 0).ph = .done r) (h1 : ∃ r, (s'.ps 1).ph = .done r) (h2 : ∃ r, (s'.ps 2).ph = .done r) (hw : s'.cwoken = [])
+    (hl : ∀ l ∈ ls, ∀ q el, l = .offer q el → q = 0 ∨ q = 1 ∨ q = 2) : PQuiescent k2 s' := by
+  apply pquiescent_of _ hw
+  intro p
+  by_cases e0 : p = 0
+  · subst e0; exact Or.inr (Or.inl h0)
+  by_cases e1 : p = 1
+  · subst e1; exact Or.inr (Or.inl h1)
+  by_cases e2 : p = 2
+  · subst e2; exact Or.inr (Or.inl h2)
+  left
+  exact pidle_run ls {} s' p h rfl (fun l hl' el e => by rcases hl l hl' p el e with a | a | a <;> contradiction)
+
+/-- from instant 8 on the example run is at rest at every instant -/
+theorem pfair_rest (n : Nat) (hn : 8 ≤ n) : PQuiescent k2 (pplayStates k2 {} pfairSched n) := by
+  have key := pplay_take k2 pfairSched {} n pfairSched_ok
+  refine prest_of_sched _ _ key ?_ ?_ ?_ ?_ (pfairSched_offers n)
+  all_goals
+    match n, hn with
+    | 8, _ => first | exact ⟨.ok, rfl⟩ | rfl
+    | 9, _ => first | exact ⟨.ok, rfl⟩ | rfl
+    | 10, _ => first | exact ⟨.ok, rfl⟩ | rfl
+    | 11, _ => first | exact ⟨.ok, rfl⟩ | rfl
+    | n+12, _ =>
+      rw [pplay_after pfair_final (n+12) (by simp [pfairSched])]
+      first | exact ⟨.ok, rfl⟩ | rfl
+
+/-- non-vacuity of `C02_persistent_fair_run_releases_all`: every hypothesis holds for this run from `n0 = 5`, where producer 2
+is inside `cond.Wait`; at instant 8 it has been stored -/
+example : ∃ (ρ : Nat → St) (lab : Nat → Option Label),
+    PIsRun k2 ρ lab ∧ PSchedFair k2 ρ lab ∧ PConsFair ρ ∧ DrainFrom lab 5 ∧ (ρ 5).stopped = false ∧
+    ((ρ 5).ps 2).ph = .sel ∧ ((ρ 8).ps 2).ph = .done .ok := by
+  refine ⟨pplayStates k2 {} pfairSched, playLabs pfairSched, pplay_isRun ⟨[], rfl⟩ pfairSched_ok, ?_, ?_,
+    ?_, rfl, rfl, rfl⟩
+  · intro n hq
+    by_cases h2 : n ≤ 2
+    · exact ⟨2, h2, .recheck 0, rfl, rfl⟩
+    by_cases h6 : n ≤ 6
+    · exact ⟨6, h6, .wakeTok 2, rfl, rfl⟩
+    by_cases h7 : n = 7
+    · exact ⟨7, by omega, .relockTok 2, rfl, rfl⟩
+    exact absurd (pfair_rest n (by omega)) hq
+  · intro n hne
+    by_cases h8 : n ≤ 8
+    · exact ⟨8, h8, by decide⟩
+    by_cases h9 : n = 9
+    · exact ⟨9, by omega, by decide⟩
+    by_cases h10 : n = 10
+    · exact ⟨10, by omega, by decide⟩
+    by_cases h11 : n = 11
+    · exact ⟨11, by omega, by decide⟩
+    rw [pplay_after pfair_final n (by simp [pfairSched]; omega)] at hne
+    rcases hne with h | h <;> exact absurd rfl h
+  · intro m hm l hl
+    have : l ∈ pfairSched.drop 5 := by
+      simp only [playLabs] at hl
+      have : (pfairSched.drop 5)[m - 5]? = some l := by
+        rw [List.getElem?_drop, Nat.add_sub_cancel' hm]; exact hl
+      exact List.mem_of_getElem? this
+    have hall : ∀ l ∈ pfairSched.drop 5, l.drain = true := by decide
+    exact hall l this
+
+/-! ## per-producer liveness under weak fairness of the producer's own goroutine (`Pending`, `ProdFair`: `Lemmas/C02Fair.lean`) -/
+
+/-- **a signalled or cancelled waiter re-takes the lock** (per-producer liveness): in every run in which the goroutine of producer
+`p` is treated with weak fairness (a step of its own that stays enabled is eventually taken), a producer whose channel has been
+closed (by the `Broadcast` of a completion or of `Shutdown`, or by a forwarded `Signal`) or whose context has ended, and every
+producer that is already between the `select` and `L.Lock()`, eventually re-locks: `relockTok p` (it re-evaluates its overflow loop
+under the lock: enqueued iff `size + el ≤ cap` at that moment and the queue is running) or `relockCtx p` (it returns its context's
+error).  No assumption on the other goroutines or on the environment. -/
+theorem C02_fair_waiter_rechecks {k : Cfg} {ρ : Nat → St} {lab : Nat → Option Label} (hr : IsRun k ρ lab) (p : Nat)
+    (hf : ProdFair k ρ lab p) (n : Nat) (hp : Pending (ρ n) p) :
+    ∃ m, n ≤ m ∧ (lab m = some (.relockTok p) ∨ lab m = some (.relockCtx p)) := by
+  apply Classical.byContradiction
+  intro hno
+  have hno' : ∀ m, n ≤ m → lab m ≠ some (.relockTok p) ∧ lab m ≠ some (.relockCtx p) := by
+    intro m hm
+    refine ⟨fun e => hno ⟨m, hm, Or.inl e⟩, fun e => hno ⟨m, hm, Or.inr e⟩⟩
+  -- a Pending producer cannot take getRes / resCtx
+  have noRes : ∀ s, Pending s p → fire k s (.getRes p) = none ∧ fire k s (.resCtx p) = none := by
+    intro s h
+    rcases h with ⟨a, _⟩ | a | a <;> simp [fire, a]
+  -- one instant: Pending is kept as long as `p` does not re-lock
+  have stepP : ∀ m, n ≤ m → Pending (ρ m) p → Pending (ρ (m+1)) p := by
+    intro m hm h
+    rcases hr.2 m with ⟨_, e⟩ | ⟨l, e1, hfl⟩
+    · rw [e]; exact h
+    · by_cases hown : l.tid = some p ∧ l.internal = true
+      · rcases own_internal_cases l p hown.1 hown.2 with rfl | rfl | rfl | rfl | rfl | rfl
+        · simp only [fire] at hfl
+          split at hfl
+          · have e := Option.some.inj hfl; rw [← e]; exact Or.inr (Or.inl (by simp [setP]))
+          · cases hfl
+        · simp only [fire] at hfl
+          split at hfl
+          · have e := Option.some.inj hfl; rw [← e]; exact Or.inr (Or.inr (by simp [setP]))
+          · cases hfl
+        · exact absurd e1 (hno' m hm).1
+        · exact absurd e1 (hno' m hm).2
+        · rw [(noRes _ h).1] at hfl; cases hfl
+        · rw [(noRes _ h).2] at hfl; cases hfl
+      · exact pending_step hfl p hown h
+  have allP : ∀ d, Pending (ρ (n + d)) p := by
+    intro d
+    induction d with
+    | zero => exact hp
+    | succ d ih => exact stepP (n + d) (Nat.le_add_right _ _) ih
+  have allP' : ∀ m, n ≤ m → Pending (ρ m) p := by
+    intro m hm
+    have := allP (m - n)
+    rwa [Nat.add_sub_cancel' hm] at this
+  -- first own step: leaves the select
+  obtain ⟨m1, hm1, l1, hl1, ht1, hi1⟩ := hf n (fun m hm => pending_enabled k _ p (allP' m hm))
+  have hw1 : ((ρ (m1+1)).ps p).ph = .wokenTok ∨ ((ρ (m1+1)).ps p).ph = .wokenCtx := by
+    rcases hr.2 m1 with ⟨e, _⟩ | ⟨l, e1, hfl⟩
+    · rw [hl1] at e; cases e
+    · rw [hl1] at e1; cases e1
+      rcases own_internal_cases l1 p ht1 hi1 with rfl | rfl | rfl | rfl | rfl | rfl
+      · simp only [fire] at hfl
+        split at hfl
+        · have e := Option.some.inj hfl; rw [← e]; exact Or.inl (by simp [setP])
+        · cases hfl
+      · simp only [fire] at hfl
+        split at hfl
+        · have e := Option.some.inj hfl; rw [← e]; exact Or.inr (by simp [setP])
+        · cases hfl
+      · exact absurd hl1 (hno' m1 hm1).1
+      · exact absurd hl1 (hno' m1 hm1).2
+      · rw [(noRes _ (allP' m1 hm1)).1] at hfl; cases hfl
+      · rw [(noRes _ (allP' m1 hm1)).2] at hfl; cases hfl
+  -- from then on it stays between the select and the lock
+  have stay : ∀ d, ((ρ (m1 + 1 + d)).ps p).ph = .wokenTok ∨ ((ρ (m1 + 1 + d)).ps p).ph = .wokenCtx := by
+    intro d
+    induction d with
+    | zero => exact hw1
+    | succ d ih =>
+      show ((ρ (m1 + 1 + d + 1)).ps p).ph = .wokenTok ∨ ((ρ (m1 + 1 + d + 1)).ps p).ph = .wokenCtx
+      rcases hr.2 (m1 + 1 + d) with ⟨_, e⟩ | ⟨l, e1, hfl⟩
+      · rw [e]; exact ih
+      · by_cases hown : l.tid = some p ∧ l.internal = true
+        · have hnsel : ((ρ (m1 + 1 + d)).ps p).ph ≠ .sel := by rcases ih with a | a <;> rw [a] <;> simp
+          rcases own_internal_cases l p hown.1 hown.2 with rfl | rfl | rfl | rfl | rfl | rfl
+          · simp [fire, hnsel] at hfl
+          · simp [fire, hnsel] at hfl
+          · exact absurd e1 (hno' _ (by omega)).1
+          · exact absurd e1 (hno' _ (by omega)).2
+          · rw [(noRes _ (allP' _ (by omega))).1] at hfl; cases hfl
+          · rw [(noRes _ (allP' _ (by omega))).2] at hfl; cases hfl
+        · by_cases ht : l.tid = some p
+          · -- offer p (disabled) or cancel p (phase unchanged)
+            have hP := allP' (m1 + 1 + d) (by omega)
+            have hP' := pending_step hfl p hown hP
+            cases l with
+            | cancel q =>
+              have : q = p := by simpa [Label.tid] using ht
+              subst this
+              simp only [fire] at hfl
+              have e := Option.some.inj hfl; rw [← e]
+              simpa [setP] using ih
+            | offer q el =>
+              have : q = p := by simpa [Label.tid] using ht
+              subst this
+              have hni : ((ρ (m1 + 1 + d)).ps q).ph ≠ .idle := by rcases ih with a | a <;> rw [a] <;> simp
+              simp [fire, hni] at hfl
+            | wakeTok q => exact absurd ⟨ht, rfl⟩ hown
+            | wakeCtx q => exact absurd ⟨ht, rfl⟩ hown
+            | relockTok q => exact absurd ⟨ht, rfl⟩ hown
+            | relockCtx q => exact absurd ⟨ht, rfl⟩ hown
+            | getRes q => exact absurd ⟨ht, rfl⟩ hown
+            | resCtx q => exact absurd ⟨ht, rfl⟩ hown
+            | read c => simp [Label.tid] at ht
+            | recheck c => simp [Label.tid] at ht
+            | complete id e => simp [Label.tid] at ht
+            | shutdown => simp [Label.tid] at ht
+          · obtain ⟨_, hfr⟩ := frame_step hfl
+            rw [(hfr p ht).1]; exact ih
+  -- second own step: can only be the re-lock
+  obtain ⟨m2, hm2, l2, hl2, ht2, hi2⟩ := hf (m1 + 1) (fun m hm => pending_enabled k _ p (allP' m (by omega)))
+  have hst := stay (m2 - (m1 + 1))
+  rw [Nat.add_sub_cancel' hm2] at hst
+  have hnsel : ((ρ m2).ps p).ph ≠ .sel := by rcases hst with a | a <;> rw [a] <;> simp
+  rcases hr.2 m2 with ⟨e, _⟩ | ⟨l, e1, hfl⟩
+  · rw [hl2] at e; cases e
+  · rw [hl2] at e1; cases e1
+    rcases own_internal_cases l2 p ht2 hi2 with rfl | rfl | rfl | rfl | rfl | rfl
+    · simp [fire, hnsel] at hfl
+    · simp [fire, hnsel] at hfl
+    · exact (hno' m2 (by omega)).1 hl2
+    · exact (hno' m2 (by omega)).2 hl2
+    · rw [(noRes _ (allP' m2 (by omega))).1] at hfl; cases hfl
+    · rw [(noRes _ (allP' m2 (by omega))).2] at hfl; cases hfl
+
+/-- non-vacuity: in the run `fairSched` producer 1 is signalled by the completion at instant 3 (`Pending` at 4) and its goroutine is
+treated fairly (it takes `wakeTok 1`, `relockTok 1` at instants 4, 5 and has returned from instant 6 on) -/
+example : IsRun k2 (playStates k2 {} fairSched) (playLabs fairSched) ∧
+    ProdFair k2 (playStates k2 {} fairSched) (playLabs fairSched) 1 ∧ Pending (playStates k2 {} fairSched 4) 1 := by
+  refine ⟨play_isRun ⟨[], rfl⟩ fairSched_ok, ?_, Or.inl ⟨rfl, Or.inl rfl⟩⟩
+  intro n hall
+  exfalso
+  have hdone : ∀ m, 6 ≤ m → ((playStates k2 {} fairSched m).ps 1).ph = .done .ok := by
+    intro m hm
+    match m, hm with
+    | 6, _ => rfl
+    | 7, _ => rfl
+    | m+8, _ => rw [play_after fair_final (m+8) (by simp [fairSched])]; rfl
+  obtain ⟨l, ht, hi, he⟩ := hall (max n 6) (Nat.le_max_left _ _)
+  have hd := hdone (max n 6) (Nat.le_max_right _ _)
+  rcases own_internal_cases l 1 ht hi with rfl | rfl | rfl | rfl | rfl | rfl <;> simp [fire, hd] at he
 
 end OtelVerif.C02
